@@ -412,6 +412,15 @@ func (c *Chain) abciEvents(evs []abci.Event) []map[string]string {
 			}
 			m[a.Key] = v
 		}
+		if e.Type == "token_swapped" { // split the coin strings (presentation only)
+			for _, side := range []string{"in", "out"} {
+				if cs, err := sdk.ParseCoinsNormalized(m["tokens_"+side]); err == nil && len(cs) == 1 {
+					m[side+"_amt"], m[side+"_denom"] = cs[0].Amount.String(), cs[0].Denom
+				} else {
+					m[side+"_amt"], m[side+"_denom"] = "0", ""
+				}
+			}
+		}
 		out = append(out, m)
 	}
 	return out
